@@ -1,7 +1,7 @@
 (* Props/C05.v — CSV import reproduces the file's records (statements; proofs in Proofs/Csv*.v).
    The model (Model/Csv.v) is the code with the repairs work/C05/fix-F-C05{a,c,d,e,b}.diff. *)
 From Coq Require Import ZArith List Lia Bool.
-From EV Require Import Res Arr Csv CsvSpec CsvBase CsvKernel CsvTable CsvRows CsvDriver CsvPrefix CsvMulti.
+From EV Require Import Res Arr Csv CsvSpec CsvBase CsvKernel CsvTable CsvRows CsvDriver CsvPrefix CsvMulti CsvRegrow CsvRegrowDrv.
 Import ListNotations.
 Open Scope Z_scope.
 
@@ -132,13 +132,72 @@ Theorem csv_multi_window_roundtrip :
 Proof. exact read_file_multi_window. Qed.
 Print Assumptions csv_multi_window_roundtrip.
 
-(* FULL for the no-value-regrowth regime (extension E1; replaces csv_chunk_independent_partial, whose
-   hypothesis "the window holds the whole file" is gone).  Independence of chunk_row_size: any two chunk
-   sizes whose windows hold every line of the file, and any two budget vectors above the column totals,
-   give the same row count and the same imported columns (both equal the specification).
-   Still open (see csv_value_regrowth_example below for an instance by computation): budgets below the
-   column totals, i.e. the `values full` path (one column's budget doubled, buffers re-allocated,
-   re-entry at the saved offset) and `indices full` in the middle of a window. *)
+(* FULL (extension E1).  The kernel with ARBITRARY positive value budgets (offs strictly increasing from 0)
+   and any number maxrow >= 1 of index rows, entered at a record start of a window that ends anywhere:
+   it commits j <= k of the k records that end inside the window (written_row_count = j, next_pos = the
+   byte after the j-th, buffers = prefix sums / texts of those j records and every column's committed bytes
+   strictly inside its budget: predicate GoodL with count j) and stops for exactly one of three reasons
+   (predicate KOut, Proofs/CsvRegrow.v): `values full` in a column vfc whose budget is at most that
+   column's bytes, with next_pos < len src (so the driver re-enters); `indices full` with j = maxrow;
+   or no flag at all, and then j = k: every record that ends inside the window is committed. *)
+Theorem csv_kernel_any_budget :
+  forall (src offs : list Z) (maxrow ncols : Z),
+  len offs = ncols + 1 -> 0 < ncols -> 0 < maxrow ->
+  forall (V : Z) (rows : list (list cell)),
+  nthZ offs 0 = 0 ->
+  (forall c, 0 <= c < ncols -> nthZ offs c + 1 <= nthZ offs (c + 1)) ->
+  nthZ offs ncols <= V ->
+  Forall (fun rw => len rw = ncols) rows ->
+  forall (hasHeader : bool) (hdr : list cell) (k : nat) (i0 : Z) (inds : arr2) (vals p : list Z),
+  (k <= length rows)%nat -> 0 <= i0 <= len src ->
+  (hasHeader = true -> i0 = 0 /\ len hdr = ncols) ->
+  suf src i0 = (if hasHeader then render_row hdr else []) ++ render_file (firstn k rows) ++ p ->
+  (p = [] \/ ((k < length rows)%nat /\ exists q, q <> [] /\ render_row (nth k rows []) = p ++ q)) ->
+  shape ncols (maxrow + 1) inds -> (forall c, 0 <= c < ncols -> I2 inds c 0 = 0) -> len vals = V ->
+  exists out, fast_csv_reader (fsm_fuel src i0) src i0 inds vals offs hasHeader = Ok out /\
+  exists j : nat, (j <= k)%nat /\ f_rows out = Z.of_nat j /\ Z.of_nat j <= maxrow /\
+    f_next out = i0 + len (if hasHeader then render_row hdr else []) + len (render_file (firstn j rows)) /\
+    GoodL offs maxrow ncols V rows (fun _ => Z.of_nat j) (f_inds out) (f_vals out) /\
+    ((f_vfull out = true /\ f_ifull out = false /\ 0 <= f_vfc out < ncols /\
+      nthZ offs (f_vfc out + 1) - nthZ offs (f_vfc out) <= len (CB rows (f_vfc out)) /\ f_next out < len src)
+     \/ (f_vfull out = false /\ f_ifull out = true /\ Z.of_nat j = maxrow)
+     \/ (f_vfull out = false /\ f_ifull out = false /\ j = k)).
+Proof. exact kernel_any_budget. Qed.
+Print Assumptions csv_kernel_any_budget.
+
+(* FULL (extension E1; the regrowth paths).  The driver with ARBITRARY positive column budgets
+   (column_offsets strictly increasing from 0 - a zero budget makes the real code loop forever) and any
+   chunk_row_size whose window holds every line of the file on its own: whenever a call raises `values
+   full` the records it committed are imported, that column's budget is doubled, the value buffer is
+   re-allocated and the same window is re-entered at the saved offset (lines 127-141); `indices full` in
+   the middle of a window doubles the index buffer and re-enters likewise; the import is |rows| rows and,
+   per column, exactly the indexed-string encoding of the column's cell texts.
+   Fuel (closed form): 2 * |rows| + 2 * mu + 4 driver iterations, where mu (Proofs/CsvRegrowDrv.v) is the sum
+   over the columns of max 0 (column bytes + 1 - budget) - an upper bound on the number of doublings
+   (mu = 0 when every budget exceeds its column: lemma mu_zero). *)
+Theorem csv_import_roundtrip :
+  forall hdr rows file crs ncols index_map,
+  0 < ncols -> len hdr = ncols -> Forall (fun rw => len rw = ncols) rows ->
+  (file = render_file (hdr :: rows) \/
+   (file ++ [NL] = render_file (hdr :: rows) /\ file <> [] /\ last file NL <> NL)) ->
+  (forall r, In r (hdr :: rows) -> len (render_row r) <= crs * 2 * ncols) ->
+  Forall (fun c => 0 <= c < ncols) index_map ->
+  forall offs fuel,
+  (len offs = ncols + 1 /\ nthZ offs 0 = 0 /\ forall c, 0 <= c < ncols -> nthZ offs c + 1 <= nthZ offs (c + 1)) ->
+  (2 * length rows + 2 * Z.to_nat (mu ncols rows offs) + 4 <= fuel)%nat ->
+  exists d, read_file fuel file crs ncols offs index_map = Ok d /\
+    d_acc d = len rows /\
+    map (fun m => (i_indices m, i_values m)) (d_imps d) =
+    map (fun ts => (enc_indices ts, enc_values ts)) (select index_map rows).
+Proof. exact read_file_regrow. Qed.
+Print Assumptions csv_import_roundtrip.
+
+(* FULL (extension E1; replaces csv_chunk_independent_partial: neither "the window holds the whole file"
+   nor "the budgets exceed the column totals" is assumed any more).  Independence of chunking: for any two
+   chunk_row_sizes whose windows hold every line of the file on its own (in particular: header plus longest
+   record), and any two positive budget vectors, read_file returns the same row count and the same imported
+   columns (both equal the specification) - across any number of windows, value-buffer regrowths, index-buffer
+   regrowths and re-entries. *)
 Theorem csv_chunk_independent :
   forall hdr rows file crs1 crs2 ncols offs1 offs2 index_map fuel1 fuel2,
   0 < ncols -> len hdr = ncols -> Forall (fun rw => len rw = ncols) rows ->
@@ -146,32 +205,35 @@ Theorem csv_chunk_independent :
    (file ++ [NL] = render_file (hdr :: rows) /\ file <> [] /\ last file NL <> NL)) ->
   (forall r, In r (hdr :: rows) -> len (render_row r) <= crs1 * 2 * ncols) ->
   (forall r, In r (hdr :: rows) -> len (render_row r) <= crs2 * 2 * ncols) ->
-  len offs1 = ncols + 1 -> nthZ offs1 0 = 0 -> len offs2 = ncols + 1 -> nthZ offs2 0 = 0 ->
-  (forall c, 0 <= c < ncols -> nthZ offs1 c + len (CB rows c) < nthZ offs1 (c + 1)) ->
-  (forall c, 0 <= c < ncols -> nthZ offs2 c + len (CB rows c) < nthZ offs2 (c + 1)) ->
+  (len offs1 = ncols + 1 /\ nthZ offs1 0 = 0 /\ forall c, 0 <= c < ncols -> nthZ offs1 c + 1 <= nthZ offs1 (c + 1)) ->
+  (len offs2 = ncols + 1 /\ nthZ offs2 0 = 0 /\ forall c, 0 <= c < ncols -> nthZ offs2 c + 1 <= nthZ offs2 (c + 1)) ->
   Forall (fun c => 0 <= c < ncols) index_map ->
-  (length rows + 2 <= fuel1)%nat -> (length rows + 2 <= fuel2)%nat ->
+  (2 * length rows + 2 * Z.to_nat (mu ncols rows offs1) + 4 <= fuel1)%nat ->
+  (2 * length rows + 2 * Z.to_nat (mu ncols rows offs2) + 4 <= fuel2)%nat ->
   exists d1 d2, read_file fuel1 file crs1 ncols offs1 index_map = Ok d1 /\
                 read_file fuel2 file crs2 ncols offs2 index_map = Ok d2 /\
                 d_acc d1 = d_acc d2 /\
                 map (fun m => (i_indices m, i_values m)) (d_imps d1) = map (fun m => (i_indices m, i_values m)) (d_imps d2).
-Proof. exact read_file_chunk_independent. Qed.
+Proof. exact read_file_chunk_independent_any. Qed.
 Print Assumptions csv_chunk_independent.
 
 (* a non-trivial instance of the hypotheses: 2 columns, 3 records (a separator, a doubled quote, a line
-   break inside cells), no final newline, chunk_row_size 3 and 20: windows of 12 and 80 bytes; the 12-byte
-   windows cut the file inside quoted cells *)
+   break inside cells), no final newline; chunk_row_size 3 with 1-byte budgets (windows of 12 bytes that cut
+   quoted cells; 7 kernel calls, 4 budget doublings, 4 re-entries; mu = 9) against chunk_row_size 20 with large budgets
+   (one call) *)
 Example csv_chunk_independent_example :
   let hdr := [(false, [97]); (false, [98])] in
   let rows := [[(false, [120; 44; 121]); (false, [34])]; [(true, [32; 122]); (false, [10; 10])]; [(false, []); (false, [119])]] in
   let file := removelast (render_file (hdr :: rows)) in
   Forall (fun r => len (render_row r) <= 3 * 2 * 2) (hdr :: rows) /\
-  exists d1 d2, read_file 5 file 3 2 [0; 200; 400] [0; 1] = Ok d1 /\ read_file 5 file 20 2 [0; 50; 90] [0; 1] = Ok d2 /\
-    d_acc d1 = 3 /\ d_acc d2 = 3 /\ length (d_trace d1) = 3%nat /\ length (d_trace d2) = 1%nat /\
+  Z.of_nat (2 * length rows + 2 * Z.to_nat (mu 2 rows [0; 1; 2]) + 4) = 28 /\
+  exists d1 d2, read_file 28 file 3 2 [0; 1; 2] [0; 1] = Ok d1 /\ read_file 10 file 20 2 [0; 50; 90] [0; 1] = Ok d2 /\
+    d_acc d1 = 3 /\ d_acc d2 = 3 /\ length (d_trace d1) = 7%nat /\ length (d_trace d2) = 1%nat /\
+    d_offs d1 = [0; 4; 8] /\
     map (fun m => (i_indices m, i_values m)) (d_imps d1) = map (fun m => (i_indices m, i_values m)) (d_imps d2) /\
     map (fun m => (i_indices m, i_values m)) (d_imps d1) =
     [([0; 3; 5; 5], [120; 44; 121; 32; 122]); ([0; 1; 3; 4], [34; 10; 10; 119])].
-Proof. vm_compute. split; [repeat constructor; discriminate|]. eexists. eexists. repeat split. Qed.
+Proof. vm_compute. split; [repeat constructor; discriminate|]. split; [reflexivity|]. eexists. eexists. repeat split. Qed.
 
 (* multi-window + regrowth instances, checked by computation (not theorems of the property):
    3 records over windows of 8 bytes with a 1-byte value budget (values-full, re-entry, doubling) *)
